@@ -124,8 +124,11 @@ func runC03(c *Ctx) {
 		want := []string{"Remaining", "Type", "Retain", "Dup", "Qos"}
 		have := map[string]bool{}
 		for _, ins := range instrs(f) {
-			if st, ok := ins.(*ssa.Store); ok && strings.Contains(describe(st.Addr), ".FixedHeader.") {
-				have[describe(st.Addr)[strings.LastIndex(describe(st.Addr), ".")+1:]] = true
+			// a store to a field of a FixedHeader value (nested in the packet literal, or built in a local first)
+			if st, ok := ins.(*ssa.Store); ok {
+				if fa, isFA := st.Addr.(*ssa.FieldAddr); isFA && strings.HasSuffix(strings.TrimPrefix(fa.X.Type().String(), "*"), "packets.FixedHeader") {
+					have[fieldName(fa.X.Type(), fa.Field)] = true
+				}
 			}
 		}
 		for _, w := range want {
@@ -1138,6 +1141,27 @@ func runC39(c *Ctx) {
 			if strings.Contains(describe(vs[1]), "ErrInvalidMessage") && dominatedByFact(r, bin, false) {
 				okErr = true
 			}
+			// the error may reach the return through a merged variable: then the place where it is produced is on
+			// the non-binary edge
+			seen := map[ssa.Value]bool{}
+			var walk func(v ssa.Value)
+			walk = func(v ssa.Value) {
+				if v == nil || seen[v] {
+					return
+				}
+				seen[v] = true
+				v = loadSource(v)
+				if ph, isPhi := v.(*ssa.Phi); isPhi {
+					for _, e := range ph.Edges {
+						walk(e)
+					}
+					return
+				}
+				if ld, isLd := v.(*ssa.UnOp); isLd && strings.Contains(describe(ld), "ErrInvalidMessage") && dominatedByFact(ld, bin, false) {
+					okErr = true
+				}
+			}
+			walk(vs[1])
 		}
 		c.ob("C39.a binary-only", "(*listeners.wsConn).Read returns ErrInvalidMessage for a non-binary message", c.pos(f.Pos()), okErr && nr != nil, "")
 		// (b)
